@@ -251,6 +251,12 @@ func (r *runner) checkUnplannedDeath() {
 	if (r.c.Oracles.TolerateDeath && r.errFiredNow()) || r.stopping {
 		return
 	}
+	if r.readFaultWindow() && strings.Contains(note, "input/output error") {
+		// the store gave up on a planned read error (fail-stop): a failure, not a wrong answer; it has to come
+		// back at the next start and answer correctly then
+		r.s.Probe("died_on_read_error")
+		return
+	}
 	r.classifyDeath(note)
 }
 
@@ -264,6 +270,17 @@ func firstLine(s string) string {
 func (r *runner) errFiredNow() bool {
 	for _, f := range r.w.Plan {
 		if f.Fired && f.Action != "crash" && f.Action != "exit" {
+			return true
+		}
+	}
+	return false
+}
+
+// readFaultWindow: a read error is planned and armed (fired or not): requests may fail until it is disarmed,
+// answers that are given must still be right, and nothing may stay wrong afterwards.
+func (r *runner) readFaultWindow() bool {
+	for _, f := range r.w.Plan {
+		if f.Op == "read" && f.Armed {
 			return true
 		}
 	}
@@ -602,7 +619,7 @@ func (r *runner) adhocSearch(ci int, s *Search) {
 		return
 	}
 	if err != nil {
-		if r.c.Oracles.NoErrors || !r.errFiredNow() {
+		if (r.c.Oracles.NoErrors || !r.errFiredNow()) && !r.readFaultWindow() {
 			r.violate("api_error", "search %q returned error: %v", s.Q.SeqQL(), err)
 		}
 		return
@@ -629,7 +646,7 @@ func (r *runner) adhocSearch(ci int, s *Search) {
 		return
 	}
 	if err != nil {
-		if r.c.Oracles.NoErrors || !r.errFiredNow() {
+		if (r.c.Oracles.NoErrors || !r.errFiredNow()) && !r.readFaultWindow() {
 			r.violate("api_error", "fetch of search hits returned error: %v", err)
 		}
 		return
@@ -801,7 +818,7 @@ func (r *runner) adhocFetch(ci int, ids []model.ID) {
 		return
 	}
 	if err != nil {
-		if r.c.Oracles.NoErrors || !r.errFiredNow() {
+		if (r.c.Oracles.NoErrors || !r.errFiredNow()) && !r.readFaultWindow() {
 			r.violate("api_error", "fetch of %d ids returned error: %v", len(ids), err)
 		}
 		return
